@@ -316,7 +316,29 @@ func verifyRun(w *World, c *Contract, x *Exec, res *FuncResult) int {
 					cond = Not(cond)
 				}
 			}
-			g := x.specCond(rs, fr, br.Expr)
+			// an assertion that mentions a local variable which is declared after this
+			// return statement says nothing about this return: it is skipped here (and the
+			// evidence says so)
+			var g Term
+			skipped := false
+			func() {
+				spec0, noObl0 := x.spec, x.noObl
+				defer func() {
+					if rec := recover(); rec != nil {
+						u, ok := rec.(unsupported)
+						if !ok || !strings.Contains(u.msg, "is not in scope of the symbolic state") || !declaredAfter(w, c, br.Expr, r.pos) {
+							panic(rec)
+						}
+						x.spec, x.noObl = spec0, noObl0
+						skipped = true
+					}
+				}()
+				g = x.specCond(rs, fr, br.Expr)
+			}()
+			if skipped {
+				x.note("assumed", fmt.Sprintf("before-return assertion #%d of %s does not apply to the return at %s (it mentions variables declared later)", br.Dir.Ord, res.Name, w.Fset.Position(r.pos)))
+				continue
+			}
 			x.oblige(rs, "return-order", fmt.Sprintf("return.order#%d", br.Dir.Ord), Implies(cond, g), r.pos, "before return "+br.Dir.Ret+": "+br.Text)
 		}
 		for i := range c.Ensures {
@@ -455,4 +477,23 @@ func srcHash(w *World, c *Contract) string {
 	}
 	h := sha256.Sum256(data[start.Offset:end.Offset])
 	return fmt.Sprintf("%x", h[:8])
+}
+
+// declaredAfter reports whether expression e mentions a local variable of the
+// contract's function whose declaration comes after position pos.
+func declaredAfter(w *World, c *Contract, e ast.Expr, pos token.Pos) bool {
+	found := false
+	ast.Inspect(e, func(n ast.Node) bool {
+		id, ok := n.(*ast.Ident)
+		if !ok {
+			return true
+		}
+		if v, ok := c.Pkg.TypesInfo.Uses[id].(*types.Var); ok && !v.IsField() {
+			if v.Pos() > pos && v.Pos() >= c.Body.Pos() && v.Pos() <= c.Body.End() {
+				found = true
+			}
+		}
+		return true
+	})
+	return found
 }
